@@ -140,7 +140,7 @@ Section Refine.
     wf k (l_sub k p b c) /\ val k (l_sub k p b c) = rm_sub k (val k p) (val k b) (val k c).
   Proof.
     intros Hp Hb Hc. unfold l_sub, rm_sub. rewrite (l_lt_spec k b c Hb Hc). destruct (val k b <? val k c).
-    - destruct (l_sub_spec k p c Hp Hc) as [W1 E1]. destruct (l_add_spec k _ b W1 Hb) as (W2 & E2 & _).
+    - destruct (l_sub_spec k b c Hb Hc) as [W1 E1]. destruct (l_add_spec k _ p W1 Hp) as (W2 & E2 & _).
       split; [exact W2|]. rewrite E2, E1. reflexivity.
     - apply (l_sub_spec k b c Hb Hc).
   Qed.
